@@ -489,7 +489,7 @@ def build_mechanism(spec, W, e) -> str:
     stripped = strip_dom_in_sub(spec)
     if stripped != spec:
         try:
-            build_app(stripped, W)
+            build_app(normalise(stripped), W)
             return f"build:domain-subapp-inside-prefixed-subapp:{where_raised(e)}"
         except Exception:
             pass
